@@ -131,6 +131,22 @@ def main(argv=None):
                 samples.append({'version': v, 'level': lvl, 'ops': g.ops, 'codes': g.codes})
         all_cases[v] = cases
     H.shrink_oracle_failures(run, oracle_on_history, ())
+    # chains that end at MSH_1 / MSH_2 of a bare Segment('MSH'), written through .value, with and without a prior
+    # read (the MSH fields have their own value setter; MSH is outside the Coq model: judged by the oracle only)
+    stats['msh_histories'] = 0
+    for v in versions:
+        for lvl in (H.TOLERANT, H.STRICT):
+            for fld, text in (('msh_1', '|'), ('msh_2', '^~\\&'), ('msh_3', 'APP'), ('msh_2', '^~')):
+                for nreads in (0, 1, 2):
+                    for extra in (0, 1):
+                        ops = [['newseg', lvl, 'MSH']]
+                        if extra:
+                            ops.append(['setattr', 0, ['msh_4'], ['t', 'FAC']])
+                        ops += [['readvalue', 0, [fld]]] * nreads
+                        ops.append(['setvaluechain', 0, [fld], text])
+                        ops.append(['toer7', 0])
+                        stats['msh_histories'] += 1
+                        oracle_on_history(run, v, ops, lvl, stats, shapes)
     run.log('implementation side: %d steps, %d read probes (%d repeated), %d chain writes checked, %d failures'
             % (stats['steps'], stats['read_probes'], stats['repeated_probes'], stats['chain_writes_checked'],
                len(run.failures)))
@@ -233,7 +249,7 @@ def make_hook(run, g, v, lvl, stats, shapes):
     def hook(impl, kk, op, phase, data):
         k = op[0]
         is_read = k in READ_KINDS
-        is_chain_write = (k == 'setattr' and len(op[2]) >= 2) or k == 'setvaluechain'
+        is_chain_write = (k == 'setattr' and len(op[2]) >= 2) or k in ('setvaluechain', 'setvaluenone')
         if phase == 'before':
             if is_read:
                 state['snap'] = snapshot(impl, True)
@@ -286,6 +302,8 @@ def make_hook(run, g, v, lvl, stats, shapes):
             assigned = set([id(last)] + subtree_ids(last)) if k == 'setattr' else set(subtree_ids(last))
             extra = new - assigned
             on_path = set(id(p) for p in (path[:-1] if k == 'setattr' else path))
+            stats['by_write_form'] = stats.get('by_write_form', {})
+            stats['by_write_form'][k] = stats['by_write_form'].get(k, 0) + 1
             shapes.add((v, lvl, k, len(names), len(extra)))
             stats['materialised_links'] += len(extra)
             if not extra <= on_path:
@@ -312,7 +330,7 @@ def make_hook(run, g, v, lvl, stats, shapes):
                              depth=len(names), version=v, level=lvl, ops=g.ops + [op], step=kk)
                     return
             # at its defined position: reading the same chain back gives the value
-            text = op[3][1] if k == 'setattr' else op[3]
+            text = op[3][1] if k == 'setattr' else (op[3] if k == 'setvaluechain' else None)
             if isinstance(text, str) and PLAIN.match(text):
                 try:
                     back = impl.chain(op[1], names).value
@@ -332,14 +350,15 @@ def make_hook(run, g, v, lvl, stats, shapes):
     return hook
 
 
-def oracle_on_history(run, v, ops, lvl=None):
+def oracle_on_history(run, v, ops, lvl=None, stats=None, shapes=None):
     class G(object):
         pass
     g = G()
     g.ops = []
-    stats = {'steps': 0, 'read_probes': 0, 'read_probes_by_depth': {}, 'repeated_probes': 0, 'chain_writes_checked': 0,
-             'materialised_links': 0, 'name_styles': {'positional': 0, 'long': 0, 'plain': 0}}
-    hook = make_hook(run, g, v, lvl, stats, set())
+    if stats is None:
+        stats = {'steps': 0, 'read_probes': 0, 'read_probes_by_depth': {}, 'repeated_probes': 0, 'chain_writes_checked': 0,
+                 'materialised_links': 0, 'name_styles': {'positional': 0, 'long': 0, 'plain': 0}}
+    hook = make_hook(run, g, v, lvl, stats, set() if shapes is None else shapes)
 
     def h2(impl, kk, op, ph, d):
         hook(impl, kk, op, ph, d)
